@@ -1001,6 +1001,9 @@ func (c *smCase) doOp() {
 			return
 		}
 		x := c.acceptors[r.Intn(len(c.acceptors))]
+		if f != nil {
+			x = c.acceptors[0]
+		}
 		fr, fe, cf := c.ext(func() { x.cancel() })
 		if !x.finished.Load() {
 			c.monfail("cancel/still-blocked", "AcceptStream did not return after its context was cancelled")
@@ -1173,7 +1176,9 @@ func (c *smCase) snapOut(s quic.VerifSMOut) string {
 // 0 frame for the next stream the peer may open, 1 frame for the one after it (skips one),
 // 2 AcceptStream, 3 / 4 complete the lowest / highest open peer stream,
 // 5 OpenStream, 6 OpenStreamSync, 7 / 8 cancel the oldest / newest blocked caller,
-// 9 / 10 MAX_STREAMS +1 / +2.
+// 9 / 10 MAX_STREAMS +1 / +2, 11 cancel the oldest blocked AcceptStream caller.
+// At most 2 AcceptStream callers and 2 OpenStreamSync callers are blocked at a time (a symbol
+// that would add a third one is skipped).
 type smScript struct {
 	client bool
 	maxIn  int64
@@ -1214,6 +1219,8 @@ func (c *smCase) resolve(code int) *smForced {
 		return &smForced{k: 80, idx: -1}
 	case 9:
 		return &smForced{k: 88, n: 1}
+	case 11:
+		return &smForced{k: 86}
 	}
 	return &smForced{k: 88, n: 2}
 }
@@ -1268,6 +1275,9 @@ func runSMCase(w *bufio.Writer, r *u.Rng, dist map[string]int, script *smScript)
 			for _, code := range script.ops {
 				if len(c.failed) != 0 {
 					break
+				}
+				if code == 2 && len(c.acceptors) >= 2 || code == 6 && len(c.waiters) >= 2 {
+					continue
 				}
 				c.forced = c.resolve(code)
 				c.doOp()
@@ -1417,6 +1427,10 @@ func runStreamsMap(w *bufio.Writer, seed uint64, n int, _ []string) {
 		enum(false, 2, []int{0, 1, 2, 3, 4}, 6)
 		enum(true, 1, []int{0, 1, 2, 3, 4}, 5)
 		enum(true, 2, []int{5, 6, 7, 8, 9, 10}, 5)
+		// both directions together, with explicit AcceptStream callers: <= 2 blocked acceptors,
+		// <= 2 blocked openers, limit 2
+		enum(false, 2, []int{0, 2, 3, 6, 7, 9, 11}, 5)
+		enum(true, 2, []int{0, 2, 3, 6, 9}, 7)
 	}
 	keys := make([]string, 0, len(dist))
 	for k := range dist {
